@@ -45,6 +45,7 @@ type pipelineStateMachine struct {
 	completedCallbackFn func(err error)          // pipeline execute completed will invoke
 	mutex               sync.Mutex
 	completed           atomic.Bool
+	err                 error // first error reported by any stage
 
 	tracker *trackerpkg.StageTracker
 }
@@ -93,6 +94,10 @@ func (sm *pipelineStateMachine) executeStage(parentStageID, stageID string, stag
 // completeStage tracks stage complete execution state.
 func (sm *pipelineStateMachine) completeStage(stageID string, err error) {
 	sm.mutex.Lock()
+	if err != nil && sm.err == nil {
+		// remember the first failure, pipeline must report it even if other stages complete later
+		sm.err = err
+	}
 	if s, ok := sm.stages[stageID]; ok {
 		var errMsg string
 		if err != nil {
@@ -116,6 +121,9 @@ func (sm *pipelineStateMachine) completeStage(stageID string, err error) {
 
 	if sm.pending.Dec() == 0 {
 		// check if all stages execute completed
+		sm.mutex.Lock()
+		err = sm.err
+		sm.mutex.Unlock()
 		sm.complete(err)
 	}
 }
